@@ -13,6 +13,7 @@
 //!   Q <L>                             current symbols := L random symbols in an exact-capacity Vec
 //!   S <backend> <F|R> <L>             stripe the current symbols (F: fresh `stripe`/`to_striped`, R: `stripe_into` the buffer)
 //!   N <rows> <L>                      buffer := StripedSequence::new(<user-built matrix of `rows` rows>, L)
+//!   R <L>                             buffer := StripedSequence::sample(rng, uniform background, L)   (DenseMatrix::uninitialized)
 //!   W <m>                             configure_wrap(m)
 //!   P <M>                             new scoring matrix of M rows (and its discrete matrix for DNA)
 //!   G                                 configure(&pssm)
@@ -391,6 +392,15 @@ fn run_case<A: Alpha, C: Lanes<A>>(seed: u64, ops: &[&str]) -> String {
                 }
                 i += 3;
             }
+            "R" => {
+                let l = num(ops[i + 1]);
+                let r = rand::rngs::StdRng::seed_from_u64(w.rng.next());
+                match guarded(|| StripedSequence::<A, C>::sample(r, Background::uniform(), l)) {
+                    Ok(s) => w.st = s,
+                    Err(()) => sizes_ok = false,
+                }
+                i += 2;
+            }
             "W" => {
                 let m = num(ops[i + 1]);
                 let st = &mut w.st;
@@ -625,6 +635,10 @@ impl Track {
         self.push(format!("N {} {}", rows, l));
         self.st = (l, rows, 0);
     }
+    fn sampled(&mut self, l: usize) {
+        self.push(format!("R {}", l));
+        self.st = (l, (l + self.c - 1) / self.c, 0);
+    }
     fn wrap(&mut self, m: usize) {
         self.push(format!("W {}", m));
         if m > self.st.2 {
@@ -791,8 +805,12 @@ pub fn generate(cfg: &Cfg) -> Vec<String> {
             for m in (1usize..=12).chain([15usize, 16, 17, 31, 32, 33, 40]) {
                 for l in [0usize, 1, m.saturating_sub(1), m, m + 1, 31, 32, 33, 64, 100, 1000, 1024, 1025] {
                     let mut t = Track::new(alpha, c, rng.next() % 1_000_000);
-                    t.symbols(l);
-                    t.stripe(if c == 32 { "avx2" } else { "generic" }, true);
+                    if rng.chance(1, 4) {
+                        t.sampled(l);
+                    } else {
+                        t.symbols(l);
+                        t.stripe(if c == 32 { "avx2" } else { "generic" }, true);
+                    }
                     t.pssm(m);
                     if rng.chance(1, 2) {
                         t.configure();
@@ -931,7 +949,11 @@ pub fn generate(cfg: &Cfg) -> Vec<String> {
                     }
                     1 => {
                         let l = if n % 7 == 0 { rng.range(0, maxlen) } else if rng.chance(1, 2) { *rng.pick(&grid) } else { rng.range(0, 200) };
-                        t.symbols(l);
+                        if rng.chance(1, 4) {
+                            t.sampled(l);
+                        } else {
+                            t.symbols(l);
+                        }
                     }
                     2 | 3 => t.stripe(*rng.pick(&backends_for(c, "stripe")), rng.chance(1, 3)),
                     4 => t.wrap(if rng.chance(1, 6) { rng.range(0, 80) } else { rng.range(0, 12) }),
